@@ -963,6 +963,10 @@ class vPeriod(TimeBase):
             start, end_or_duration = ical.split('/')
             start = vDDDTypes.from_ical(start, timezone=timezone)
             end_or_duration = vDDDTypes.from_ical(end_or_duration, timezone=timezone)
+            if not isinstance(start, datetime) or \
+                    not isinstance(end_or_duration, (datetime, timedelta)):
+                # period = date-time "/" (date-time / dur-value)
+                raise ValueError(ical)
             return (start, end_or_duration)
         except Exception:
             raise ValueError(f'Expected period format, got: {ical}')
